@@ -4,7 +4,7 @@
 (*   every task handed over by call() / async_call() (CallInv / AsyncInv) starts exactly once (TaskStart, never before it     *)
 (*   was handed over, never twice) and ends once (TaskEnd), on one of the pool's vCPUs (v in 1..number of pool vCPUs: the      *)
 (*   harness numbers the vCPUs that are not its own in order of appearance; its own are negative, "no vCPU" is 0);             *)
-(*   call() returns (CallResp) only after its task ended;                                                                      *)
+(*   call() returns (CallResp) only after its task ended - also when the caller is interrupted (Intr) meanwhile;                                                                      *)
 (*   the functor of an async_call() is deleted exactly once (TaskDeleted), after its task ended;                               *)
 (*   ~WorkPool() returns (PoolDtorResp) only after every task that had been handed over ended and, if asynchronous, was         *)
 (*   deleted; nothing starts, ends or is deleted after that;                                                                   *)
@@ -49,11 +49,13 @@ PoolDtorResp == /\ Ev("PoolDtorResp") /\ pool = "dtor"
                 /\ pool' = "gone" /\ UNCHANGED <<task, nvt>>
 ExtJoinInv == Ev("ExtJoinInv") /\ pool = "live" /\ UNCHANGED <<task, pool, nvt>>
 ExtJoinResp == Ev("ExtJoinResp") /\ R.r = 0 /\ pool \in {"dtor", "gone"} /\ UNCHANGED <<task, pool, nvt>>
+\* the harness interrupted a photon submitter (thread_interrupt, EINTR) that was inside call(): changes nothing
+Intr == Ev("Intr") /\ pool = "live" /\ UNCHANGED <<task, pool, nvt>>
 Quiesce == /\ Ev("Quiesce") /\ pool = "gone"
            /\ \A t \in T : task[t].ph # "none" => task[t].resp
            /\ UNCHANGED <<task, pool, nvt>>
 Next == \/ Reset \/ PoolCtorInv \/ PoolCtorResp \/ CallInv \/ AsyncInv \/ TaskStart \/ TaskEnd \/ CallResp \/ AsyncResp \/ TaskDeleted
-        \/ PoolDtorInv \/ PoolDtorResp \/ ExtJoinInv \/ ExtJoinResp \/ Quiesce
+        \/ PoolDtorInv \/ PoolDtorResp \/ ExtJoinInv \/ ExtJoinResp \/ Intr \/ Quiesce
 Spec == Init /\ [][Next]_vars
 NotAccepted == l <= Len(Tr)
 Progress == TLCSet(1, IF TLCGet(1) < l THEN l ELSE TLCGet(1))
